@@ -10,7 +10,7 @@
     entries), the sorted-set writes and scripts (their per-handler proofs are not done here; they
     are covered by the one-clock theorem of Proofs/AofFacts.v). *)
 From Ferrous Require Import Base.Bytes Generated Model.Resp Model.Types Model.Glob Model.Strings
-  Model.Lists Model.ZSets Model.Streams Model.Scan Model.Lua Model.Server Model.Conn Model.Blocking Model.Aof
+  Model.Lists Model.ZSets Model.Streams Model.Scan Model.Lua Model.Server Model.Conn Model.Blocking Model.RunLua Model.Aof
   Proofs.BytesFacts Proofs.StringsFacts Proofs.ListsFacts Proofs.ServerFacts Proofs.StreamFacts Proofs.AofFacts.
 From Coq Require Import ZifyBool.
 Open Scope Z_scope.
@@ -1025,7 +1025,8 @@ Qed.
 Lemma item_ttl t now' d1 d2 dbi nm rest o :
   t <= now' -> ttl_recorded (upper nm) = true -> sims d1 d2 -> lfresh_all t d1 -> lfresh_all now' d2 ->
   lfresh_all now' (step_dbs t d1 dbi (FBulk nm :: rest) o) ->
-  (forall k D, In (pexpireat_record k D) (dout_recs t d1 dbi (FBulk nm :: rest) o) -> in_i64 D = true) ->
+  (forall k rem, nth_error (FBulk nm :: rest) 1 = Some (FBulk k) ->
+     eng_ttl t (nth (Z.to_nat dbi) (step_dbs t d1 dbi (FBulk nm :: rest) o) empty_db) k = Some rem -> in_i64 (t + rem) = true) ->
   sims (step_dbs t d1 dbi (FBulk nm :: rest) o)
        (redo_dbs now' dbi ((FBulk nm :: rest, o) :: map (fun r => (r, None)) (dout_recs t d1 dbi (FBulk nm :: rest) o)) d2).
 Proof.
@@ -1059,7 +1060,8 @@ Proof.
   destruct (plan_redo t now' _ _ pl k Ht (sims_nth d1 d2 i H) Hkey1 (F2 i) Fx) as [Fx2 Hp].
   destruct (eng_ttl t (run_plan t (nth i d1 empty_db) pl) k) as [rem|] eqn:Et; cbn [map fold_left fst snd].
   - destruct Hp as [Hlt Hsim].
-    assert (Hr : in_i64 (t + rem) = true) by (apply (Hfit k); left; reflexivity).
+    assert (Hr : in_i64 (t + rem) = true).
+    { apply (Hfit k rem eq_refl). rewrite nth_list_set_same by exact Len. exact Et. }
     assert (F2' : lfresh_all now' (list_set d2 i (run_plan now' (nth i d2 empty_db) pl))) by (apply lfresh_all_list_set; assumption).
     unfold pexpireat_record at 1. rewrite (step_fresh now' _ dbi _ _ None F2'), dstep_exec by reflexivity.
     change (upper (bs "PEXPIREAT")) with (bs "PEXPIREAT"). rewrite exec_pexpireat.
@@ -1115,9 +1117,18 @@ Qed.
 
 (** ================= the redo at any later clock reading ================= *)
 Definition timeless (x : item) : bool := negb (mem_name (cmd_name (x_parts x)) untimed_excluded).
-(** every deadline written to the file fits the i64 its reader parses *)
-Definition deadlines_fit (recs : list (list frame)) : Prop :=
-  forall k D, In (pexpireat_record k D) recs -> in_i64 D = true.
+(** the deadline written to the file after a TTL command fits the i64 its reader parses *)
+Definition deadline_fits (t : Z) (dbs : list db) (x : item) : bool :=
+  if ttl_recorded (cmd_name (x_parts x)) then
+    match nth_error (x_parts x) 1 with
+    | Some (FBulk k) =>
+        match eng_ttl t (nth (Z.to_nat (x_db x)) (xstep_dbs t dbs x) empty_db) k with
+        | Some rem => in_i64 (t + rem)
+        | None => true
+        end
+    | _ => true
+    end
+  else true.
 (** XADD with the ID *: the stream under the key satisfies the stream invariant *)
 Definition auto_fit (d1 : list db) (x : item) : Prop :=
   by_outcome (cmd_name (x_parts x)) (x_parts x) = true ->
@@ -1134,13 +1145,13 @@ Qed.
 
 Lemma item_sims t now' x d1 d2 :
   t <= now' -> sims d1 d2 -> lfresh_all now' d1 -> lfresh_all now' (xstep_dbs t d1 x) ->
-  timeless x = true -> deadlines_fit (xout_recs t d1 x) -> auto_fit d1 x ->
+  timeless x = true -> deadline_fits t d1 x = true -> auto_fit d1 x ->
   sims (xstep_dbs t d1 x) (redo_dbs now' (x_db x) (xorecs t d1 x) d2).
 Proof.
-  intros Ht H Fn Fp Htl Hfit Hauto.
+  intros Ht H Fn Fp Htl Hfit Hauto. unfold deadline_fits in Hfit.
   pose proof (lfresh_all_mono t now' d1 Ht Fn) as F1. pose proof (sims_lfresh now' d1 d2 H Fn) as F2.
   rewrite (xstep_is_step t d1 x F1) in *. unfold xorecs. rewrite (xout_fresh t d1 x F1) in *.
-  unfold timeless, auto_fit in *. apply negb_true_iff in Htl.
+  unfold timeless, auto_fit, deadline_fits in *. apply negb_true_iff in Htl.
   destruct (x_parts x) as [|first rest] eqn:Ep; [exact H|]. destruct first; try exact H.
   unfold cmd_name in *. set (dbi := x_db x) in *. set (o := x_or x) in *.
   destruct (by_outcome (upper b) (FBulk b :: rest)) eqn:Hb.
@@ -1157,7 +1168,8 @@ Proof.
       destruct (ttl_not_special _ Htr) as (_ & _ & He & Hm).
       assert (Hv : verb_recs (FBulk b :: rest) = [FBulk b :: rest]).
       { unfold verb_recs, logs_before. rewrite Hm, Hb, He. reflexivity. }
-      rewrite Hv. cbn [map app]. apply item_ttl; assumption.
+      rewrite Hv. cbn [map app]. apply item_ttl; try assumption.
+      intros k rem Hk Hrem. rewrite Hk in Hfit. fold dbi in Hfit. rewrite Hrem in Hfit. exact Hfit.
     + rewrite (dout_recs_plain t d1 dbi b rest o Hb Htr). cbn [map]. rewrite app_nil_r.
       destruct (beq (upper b) (bs "PEXPIREAT")) eqn:Hx.
       * apply beq_eq in Hx.
@@ -1195,7 +1207,8 @@ Proof.
 Qed.
 
 Definition timed_item (now' : Z) (dbs : list db) (tx : titem) : bool :=
-  (fst tx <=? now') && timeless (snd tx) && fresh_all now' (xstep_dbs (fst tx) dbs (snd tx)).
+  (fst tx <=? now') && timeless (snd tx) && fresh_all now' (xstep_dbs (fst tx) dbs (snd tx))
+  && deadline_fits (fst tx) dbs (snd tx).
 (** every clock reading of the history is at most [now'], every command is in the clock-independent
     part, and NO DEADLINE OF THE LIVE RUN HAS PASSED AT [now']: every state the live server went
     through is without entries that are expired at the time of the redo *)
@@ -1207,7 +1220,7 @@ Fixpoint timed_run (now' : Z) (tr : list titem) (dbs : list db) : bool :=
 Fixpoint fits_run (tr : list titem) (dbs : list db) : Prop :=
   match tr with
   | [] => True
-  | (t, x) :: r => deadlines_fit (xout_recs t dbs x) /\ auto_fit dbs x /\ fits_run r (xstep_dbs t dbs x)
+  | (t, x) :: r => auto_fit dbs x /\ fits_run r (xstep_dbs t dbs x)
   end.
 
 Theorem trace_redo_any_time now' : forall tr dbs,
@@ -1216,21 +1229,21 @@ Theorem trace_redo_any_time now' : forall tr dbs,
 Proof.
   intros tr dbs Hok Hr Hf.
   apply (trace_redo_rel sims now' (fun d => lfresh_all now' d)
-           (fun tx d => timed_item now' d tx = true /\ deadlines_fit (xout_recs (fst tx) d (snd tx)) /\ auto_fit d (snd tx)));
+           (fun tx d => timed_item now' d tx = true /\ auto_fit d (snd tx)));
     auto; [| | |apply sims_refl|discriminate|].
   - (* SELECT *)
     intros d1 d2 cur dbi F H Hd. rewrite step_dbs_unlogged; [exact H|apply select_unwritten|].
     eapply sims_lfresh; eauto.
-  - intros t x d1 d2 F (Ht & Hd & Ha) Hi H. unfold timed_item in Ht. cbn [fst snd] in *.
-    apply andb_prop in Ht as [Ht H3]. apply andb_prop in Ht as [H1 H2].
+  - intros t x d1 d2 F (Ht & Ha) Hi H. unfold timed_item in Ht. cbn [fst snd] in *.
+    apply andb_prop in Ht as [Ht Hd]. apply andb_prop in Ht as [Ht H3]. apply andb_prop in Ht as [H1 H2].
     rewrite (redo_writes now' (x_db x) _ d2 (xorecs_writes t d1 x)). cbn [snd]. split; [reflexivity|].
     apply item_sims; auto; [lia|apply fresh_lfresh_all; exact H3].
-  - intros t x d1 d2 F (Ht & Hd & Ha) H Hn. unfold timed_item in Ht. cbn [fst snd] in *.
-    apply andb_prop in Ht as [Ht H3]. apply andb_prop in Ht as [H1 H2].
+  - intros t x d1 d2 F (Ht & Ha) H Hn. unfold timed_item in Ht. cbn [fst snd] in *.
+    apply andb_prop in Ht as [Ht Hd]. apply andb_prop in Ht as [Ht H3]. apply andb_prop in Ht as [H1 H2].
     pose proof (item_sims t now' x d1 d2) as X. rewrite Hn in X. apply X; auto; [lia|apply fresh_lfresh_all; exact H3].
   - clear Hok. revert dbs Hr Hf. induction tr as [|[t x] tr IH]; intros dbs Hr Hf; cbn [timed_run fits_run along] in *.
     + apply fresh_lfresh_all; exact Hr.
-    + apply andb_prop in Hr as [Hr H3]. apply andb_prop in Hr as [H1 H2]. destruct Hf as (Hd & Ha & Hf).
+    + apply andb_prop in Hr as [Hr H3]. apply andb_prop in Hr as [H1 H2]. destruct Hf as (Ha & Hf).
       split; [apply fresh_lfresh_all; exact H1|]. split; [auto|]. apply IH; assumption.
 Qed.
 
@@ -1249,3 +1262,281 @@ Proof.
   apply trace_redo_any_time; [|exact Hr|exact Hf].
   exact (proj2 (history_is_trace h (init_server None) linv_init Hok)).
 Qed.
+
+(** ---- the side conditions as computable checks ---- *)
+Fixpoint sorted_b (es : list sentry) : bool :=
+  match es with [] => true | e :: r => forallb (fun y => sid_ltb (fst e) (fst y)) r && sorted_b r end.
+Definition sinv_b (s : stream) : bool :=
+  sorted_b (s_entries s) && forallb (fun e => sid_leb (fst e) (s_last s)) (s_entries s)
+  && sid_eqb (s_last s) (s_ams s, s_aseq s) && (s_len s =? len (s_entries s))
+  && (0 <=? fst (s_last s)) && (fst (s_last s) <=? u64_max) && (0 <=? snd (s_last s)) && (snd (s_last s) <=? u64_max).
+Lemma sorted_b_sorted es : sorted_b es = true -> sorted es.
+Proof.
+  induction es as [|e es IH]; intros H; [constructor|]. cbn [sorted_b] in H. apply andb_prop in H as [H1 H2].
+  constructor; [apply IH; exact H2|]. apply Forall_forall. intros y Hy. rewrite forallb_forall in H1.
+  unfold elt. apply sid_ltb_lt. exact (H1 y Hy).
+Qed.
+Lemma sinv_b_inv s : sinv_b s = true -> SInv s /\ in_u64 (s_last s).
+Proof.
+  unfold sinv_b. intros H.
+  repeat match type of H with (_ && _) = true => apply andb_prop in H; destruct H as [H ?] end.
+  split; [split|unfold in_u64; lia].
+  - apply sorted_b_sorted. exact H.
+  - apply Forall_forall. intros e He. rewrite forallb_forall in H6. apply sid_leb_le. exact (H6 e He).
+  - apply sid_eqb_eq. exact H5.
+  - lia.
+Qed.
+Definition auto_fit_b (d1 : list db) (x : item) : bool :=
+  negb (by_outcome (cmd_name (x_parts x)) (x_parts x)) ||
+  match nth_error (x_parts x) 1 with
+  | Some (FBulk k) => match raw_stream (nth (Z.to_nat (x_db x)) d1 empty_db) k with SStream _ s => sinv_b s | _ => true end
+  | _ => true
+  end.
+Fixpoint fits_b (tr : list titem) (dbs : list db) : bool :=
+  match tr with [] => true | (t, x) :: r => auto_fit_b dbs x && fits_b r (xstep_dbs t dbs x) end.
+Lemma fits_b_run : forall tr dbs, fits_b tr dbs = true -> fits_run tr dbs.
+Proof.
+  induction tr as [|[t x] tr IH]; intros dbs H; cbn [fits_b fits_run] in *; [exact I|].
+  apply andb_prop in H as [H1 H2]. split; [|apply IH; exact H2].
+  unfold auto_fit_b in H1. intros Hb k Hk. rewrite Hb, Hk in H1. cbn [negb orb] in H1.
+  unfold stream_fit. destruct (raw_stream _ k); try exact I. apply sinv_b_inv. exact H1.
+Qed.
+Corollary replay_any_time_b now' h :
+  forallb (fun te => ev_ok (snd te)) h = true ->
+  timed_run now' (trace_of h) dbs0 = true -> fits_b (trace_of h) dbs0 = true ->
+  aof_log (run_tevs h) = map fst (trecs (trace_of h) dbs0 None) /\
+  forall i k, get_entry (nth i (s_dbs (replay_o now' (trecs (trace_of h) dbs0 None))) empty_db) k =
+              get_entry (nth i (s_dbs (run_tevs h)) empty_db) k.
+Proof. intros H1 H2 H3. apply replay_any_time; [exact H1|exact H2|apply fits_b_run; exact H3]. Qed.
+
+(** ================= re-sending the file over a connection IS the redo ================= *)
+(** what the harness (and any external redo tool) does: the records of the file are sent as
+    request frames over a fresh connection, i.e. through process_frame.  A logged name - and
+    SELECT - is never transaction control and contains no blanks, so every frame goes straight
+    to process_normal_command in the database the connection has selected: the result is
+    [replay]. *)
+Definition plain_name (u : bytes) : bool :=
+  forallb (fun c => negb (is_space c)) u
+  && negb (beq u (bs "MULTI")) && negb (beq u (bs "EXEC")) && negb (beq u (bs "DISCARD"))
+  && negb (beq u (bs "WATCH")) && negb (beq u (bs "UNWATCH")) && negb (beq u (bs "AUTH")).
+Lemma write_names_plain : forallb plain_name (bs "SELECT" :: write_commands) = true.
+Proof. vm_compute. reflexivity. Qed.
+Lemma bmem_In x l : bmem x l = true -> In x l.
+Proof.
+  induction l as [|y l IH]; cbn [bmem]; [discriminate|]. intros H. apply orb_prop in H as [H|H].
+  - apply beq_eq in H. left. symmetry. exact H.
+  - right. exact (IH H).
+Qed.
+Lemma is_space_upper1 c : is_space (upper1 c) = is_space c.
+Proof. unfold is_space, upper1. destruct ((97 <=? c) && (c <=? 122)) eqn:E; [|reflexivity]. lia. Qed.
+Lemma nospace_upper b : forallb (fun c => negb (is_space c)) (upper b) = forallb (fun c => negb (is_space c)) b.
+Proof. unfold upper. induction b as [|c b IH]; [reflexivity|]. cbn [map forallb]. rewrite is_space_upper1, IH. reflexivity. Qed.
+Lemma drop_while_nospace b : forallb (fun c => negb (is_space c)) b = true -> drop_while is_space b = b.
+Proof. destruct b as [|c b]; [reflexivity|]. cbn [forallb drop_while]. intros H. apply andb_prop in H as [H _]. apply negb_true_iff in H. rewrite H. reflexivity. Qed.
+Lemma forallb_rev {A} (p : A -> bool) l : forallb p (rev l) = forallb p l.
+Proof. induction l as [|x l IH]; [reflexivity|]. cbn [rev forallb]. rewrite forallb_app, IH. cbn [forallb]. rewrite andb_true_r. apply andb_comm. Qed.
+Lemma trim_nospace b : forallb (fun c => negb (is_space c)) b = true -> trim b = b.
+Proof.
+  intros H. unfold trim. rewrite (drop_while_nospace b H).
+  rewrite drop_while_nospace by (rewrite forallb_rev; exact H). apply rev_involutive.
+Qed.
+(** a record of the file: a logged command or the engine's SELECT *)
+Definition file_record (parts : list frame) : bool :=
+  match parts with FBulk nm :: _ => mem_name (upper nm) (bs "SELECT" :: write_commands) | _ => false end.
+
+Lemma resend_is_normal now s cn parts o :
+  file_record parts = true -> s_password s = None ->
+  zlookup replay_conn (s_conns s) = Some cn -> c_intx cn = false ->
+  process_frame now s replay_conn (FArray parts) o = normal_command now s replay_conn (c_db cn) parts o.
+Proof.
+  unfold file_record. intros Hl Hp Hc Hi. destruct parts as [|first rest]; [discriminate|].
+  destruct first; try discriminate.
+  pose proof write_names_plain as W. rewrite forallb_forall in W.
+  specialize (W (upper b) (bmem_In _ _ Hl)). unfold plain_name in W.
+  repeat match type of W with (_ && _) = true => apply andb_prop in W; destruct W as [W ?] end.
+  repeat match goal with X : negb _ = true |- _ => apply negb_true_iff in X end.
+  rewrite nospace_upper in W.
+  unfold process_frame. rewrite Hc, Hp. cbn [andb]. rewrite (trim_nospace b W).
+  repeat match goal with X : beq (upper b) _ = false |- _ => rewrite X end.
+  rewrite Hi. reflexivity.
+Qed.
+
+Definition resend_step (now : Z) (s : server) (po : orec) : server :=
+  snd (process_frame now s replay_conn (FArray (fst po)) (snd po)).
+Definition resend (now : Z) (log : list orec) : server := fold_left (resend_step now) log replay_init.
+Lemma resend_is_replay now log :
+  forallb (fun po => file_record (fst po)) log = true -> resend now log = replay_o now log.
+Proof.
+  unfold resend, replay_o.
+  assert (G : forall l s, forallb (fun po => file_record (fst po)) l = true -> s_password s = None ->
+                (exists cn, zlookup replay_conn (s_conns s) = Some cn /\ c_intx cn = false) ->
+                fold_left (resend_step now) l s = fold_left (replay_step now) l s).
+  { induction l as [|[p o] l IH]; intros s Hl Hp (cn & Hc & Hi); [reflexivity|].
+    cbn [forallb fst] in Hl. apply andb_prop in Hl as [Hl1 Hl2]. cbn [fold_left].
+    unfold resend_step at 2. unfold replay_step at 2. cbn [fst snd]. unfold conn_db. rewrite Hc.
+    rewrite (resend_is_normal now s cn p o Hl1 Hp Hc Hi).
+    destruct (nc_conn now s replay_conn (c_db cn) p o cn Hp Hc) as (Hp' & (cn' & Hc' & _ & Hi' & _) & _).
+    apply IH; [exact Hl2|exact Hp'|]. exists cn'. rewrite Hi', Hi. auto. }
+  intros Hl. apply G; [exact Hl|reflexivity|]. eexists. split; reflexivity.
+Qed.
+(** the file of a history holds records only *)
+Lemma write_is_record p : is_write p = true -> file_record p = true.
+Proof.
+  unfold is_write, file_record. destruct p as [|[] ?]; try discriminate.
+  unfold mem_name. cbn [bmem]. intros H. rewrite H. apply orb_true_r.
+Qed.
+Lemma trecs_records : forall tr dbs last, forallb (fun po => file_record (fst po)) (trecs tr dbs last) = true.
+Proof.
+  induction tr as [|[t x] tr IH]; intros dbs last; cbn [trecs]; [reflexivity|].
+  rewrite !forallb_app, IH, andb_true_r. apply andb_true_intro. split.
+  - unfold sel_recs. destruct (xorecs t dbs x); [reflexivity|]. destruct (same_db last (x_db x)); reflexivity.
+  - apply forallb_forall. intros po Hin. pose proof (xorecs_writes t dbs x) as W. rewrite Forall_forall in W.
+    apply write_is_record. exact (W po Hin).
+Qed.
+Lemma history_resend now h :
+  resend now (trecs (trace_of h) dbs0 None) = replay_o now (trecs (trace_of h) dbs0 None).
+Proof. apply resend_is_replay. apply trecs_records. Qed.
+
+(** ================= start-up: the dataset after a restart is the redo of the file ================= *)
+(** (Model/Aof.v [restart_o]: AofEngine::load replays the records - 831b342; the oracles are the
+    model's device for the f64 values of sorted-set arguments) *)
+Lemma restart_is_redo now s ol : s_dbs (restart_o now s ol) = s_dbs (replay_o now ol).
+Proof. reflexivity. Qed.
+Lemma restart_keeps_file now s ol : aof_log (restart_o now s ol) = aof_log s.
+Proof. reflexivity. Qed.
+(** after a history and a restart at any later clock reading, every key of every database is
+    back with its value and its deadline - under the conditions of [replay_any_time] *)
+Theorem restart_recovers now' h :
+  forallb (fun te => ev_ok (snd te)) h = true ->
+  timed_run now' (trace_of h) dbs0 = true -> fits_run (trace_of h) dbs0 ->
+  forall i k, get_entry (nth i (s_dbs (restart_o now' (run_tevs h) (trecs (trace_of h) dbs0 None))) empty_db) k =
+              get_entry (nth i (s_dbs (run_tevs h)) empty_db) k.
+Proof. intros H1 H2 H3. rewrite restart_is_redo. exact (proj2 (replay_any_time now' h H1 H2 H3)). Qed.
+
+(** ================= EVALSHA (Model/RunLua.v, a8393c5) ================= *)
+(** EVALSHA of a cached script leaves exactly the record of the EVAL of that script; a digest
+    that names no script leaves none *)
+Lemma evalsha_record t s c dbi ca nm h nk rest sha src :
+  str_arg h = Some sha -> alookup sha ca = Some src ->
+  s_aof (snd (h_evalsha t s c dbi ca (FBulk nm :: h :: nk :: rest))) =
+  aof_push (s_aof s) dbi (FBulk (bs "EVAL") :: FBulk src :: nk :: rest).
+Proof.
+  intros Hs Hc. unfold h_evalsha. rewrite Hs, Hc.
+  change (mem_name (bs "EVALSHA") write_commands) with true. cbv iota.
+  destruct (normal_command t s c (evalsha_db dbi) (FBulk (bs "EVAL") :: FBulk src :: nk :: rest) None) as [r s1].
+  cbn [snd]. rewrite s_aof_log_aof_in. reflexivity.
+Qed.
+Lemma evalsha_unknown t s c dbi ca nm h nk rest sha :
+  str_arg h = Some sha -> alookup sha ca = None ->
+  snd (h_evalsha t s c dbi ca (FBulk nm :: h :: nk :: rest)) = s.
+Proof. intros Hs Hc. unfold h_evalsha. rewrite Hs, Hc. reflexivity. Qed.
+
+(** ================= witnesses ================= *)
+Definition cmd (args : list bytes) : frame := FArray (map FBulk args).
+Definition hist (cs : list (list bytes)) : list tev := (0, EConn 1) :: map (fun a => (0, EFrame 1 (cmd a) None)) cs.
+Definition set_src : bytes :=
+  bs "local r={}" ++ [10] ++ bs "r[1]=redis.call(""\083\069\084"",KEYS[1],ARGV[1])" ++ [10] ++ bs "return r[1]".
+
+(** one clock reading: the formerly unlogged writers, databases other than 0, a consumer group
+    (its pending entries carry the clock), a script, a transaction with a queued SELECT *)
+Definition plain_history : list tev :=
+  map (fun e => (7, e))
+  [EConn 1; EConn 2;
+   EFrame 1 (cmd [bs "SET"; bs "k"; bs "a"]) None;
+   EFrame 1 (cmd [bs "GETSET"; bs "k"; bs "b"]) None;
+   EFrame 1 (cmd [bs "HMSET"; bs "h"; bs "f"; bs "1"]) None;
+   EFrame 2 (cmd [bs "SELECT"; bs "1"]) None;
+   EFrame 2 (cmd [bs "XADD"; bs "x"; bs "1-1"; bs "f"; bs "v"]) None;
+   EFrame 2 (cmd [bs "XGROUP"; bs "CREATE"; bs "x"; bs "g"; bs "0"]) None;
+   EFrame 2 (cmd [bs "XREADGROUP"; bs "GROUP"; bs "g"; bs "c"; bs "STREAMS"; bs "x"; bs ">"]) None;
+   EFrame 1 (cmd [bs "EVAL"; set_src; bs "1"; bs "e"; bs "v"]) None;
+   EFrame 1 (cmd [bs "MULTI"]) None;
+   EFrame 1 (cmd [bs "RPUSH"; bs "l"; bs "x"; bs "y"]) None;
+   EFrame 1 (cmd [bs "INCR"; bs "l"]) None;
+   EFrame 1 (cmd [bs "SELECT"; bs "15"]) None;
+   EFrame 1 (cmd [bs "APPEND"; bs "k"; bs "c"]) None;
+   EFrame 1 (cmd [bs "GET"; bs "k"]) None;
+   EFrame 1 (cmd [bs "EXEC"]) None;
+   EFrame 1 (cmd [bs "LPOP"; bs "nolist"]) None;
+   EClose 2].
+Lemma plain_history_ok :
+  forallb (fun te => ev_ok (snd te)) plain_history = true /\
+  plain_run 7 (trace_of plain_history) dbs0 = true /\
+  len (aof_log (run_tevs plain_history)) = 15 /\
+  len (d_data (nth 0 (s_dbs (run_tevs plain_history)) empty_db)) = 4 /\
+  len (d_data (nth 1 (s_dbs (run_tevs plain_history)) empty_db)) = 1 /\
+  len (d_data (nth 15 (s_dbs (run_tevs plain_history)) empty_db)) = 1.
+Proof. repeat (apply conj; [vm_compute; reflexivity|]). vm_compute; reflexivity. Qed.
+
+(** clock readings spread over an hour, every kind of record: deadlines (SET EX, SETEX, EXPIRE,
+    PEXPIRE, a refused SET NX on a key with a deadline), SPOP and XADD * with the outcomes the
+    implementation reported, a pop served to a waiting client, a PEXPIREAT sent by a client, an
+    XADD * on an existing stream; the redo a day later *)
+Definition day : Z := 86400000.
+Definition timed_history : list tev :=
+  [(0, EConn 1); (0, EConn 2);
+   (1000, EFrame 1 (cmd [bs "SET"; bs "k"; bs "a"; bs "EX"; bs "100000"]) None);
+   (1500, EFrame 2 (cmd [bs "SELECT"; bs "2"]) None);
+   (1600, EFrame 1 (cmd [bs "SADD"; bs "s"; bs "a"; bs "b"; bs "c"]) None);
+   (1700, EFrame 1 (cmd [bs "SPOP"; bs "s"; bs "2"]) (Some (FArray [FBulk (bs "c"); FBulk (bs "a")])));
+   (1800, EFrame 1 (cmd [bs "XADD"; bs "x"; bs "*"; bs "f"; bs "v"]) (Some (FBulk (bs "1800-0"))));
+   (2000, EFrame 2 (cmd [bs "MULTI"]) None);
+   (2500, EFrame 2 (cmd [bs "RPUSH"; bs "l"; bs "x"; bs "y"]) None);
+   (2600, EFrame 2 (cmd [bs "SETEX"; bs "t"; bs "90000"; bs "v"]) None);
+   (60000, EFrame 1 (cmd [bs "GETSET"; bs "k"; bs "b"]) None);
+   (3600000, EFrame 2 (cmd [bs "EXEC"]) None);
+   (3600001, EServed 2 true (bs "l"));
+   (3600002, EFrame 2 (cmd [bs "EXPIRE"; bs "l"; bs "500000"]) None);
+   (3600003, EFrame 1 (cmd [bs "PEXPIRE"; bs "k"; bs "100000000"]) None);
+   (3600004, EFrame 1 (cmd [bs "SET"; bs "k"; bs "c"; bs "NX"]) None);
+   (3600005, EFrame 1 (cmd [bs "PEXPIREAT"; bs "s"; bs "99999999999"]) None);
+   (3600006, EFrame 1 (cmd [bs "SPOP"; bs "nokey"]) None);
+   (3600007, EFrame 1 (cmd [bs "XADD"; bs "x"; bs "*"; bs "g"; bs "w"]) (Some (FBulk (bs "3600007-0"))));
+   (3600007, EFrame 1 (cmd [bs "XADD"; bs "x"; bs "*"; bs "g"; bs "w"]) (Some (FBulk (bs "3600007-1"))))].
+Lemma timed_history_ok :
+  forallb (fun te => ev_ok (snd te)) timed_history = true /\
+  timed_run day (trace_of timed_history) dbs0 = true /\
+  fits_b (trace_of timed_history) dbs0 = true /\
+  len (aof_log (run_tevs timed_history)) = 22 /\
+  (* the SPOP as the SREM of what it returned, the XADD * with its ID, the served pop, a deadline *)
+  In [FBulk (bs "SREM"); FBulk (bs "s"); FBulk (bs "a"); FBulk (bs "c")] (aof_log (run_tevs timed_history)) /\
+  In [FBulk (bs "XADD"); FBulk (bs "x"); FBulk (bs "1800-0"); FBulk (bs "f"); FBulk (bs "v")] (aof_log (run_tevs timed_history)) /\
+  In [FBulk (bs "LPOP"); FBulk (bs "l")] (aof_log (run_tevs timed_history)) /\
+  In [FBulk (bs "PEXPIREAT"); FBulk (bs "k"); FBulk (bs "100001000")] (aof_log (run_tevs timed_history)) /\
+  (* nothing of the random commands as they were sent *)
+  existsb (fun p => match p with FBulk n :: _ => beq n (bs "SPOP") | _ => false end) (aof_log (run_tevs timed_history)) = false.
+Proof.
+  repeat (apply conj; [vm_compute; reflexivity|]).
+  repeat (apply conj; [vm_compute; tauto|]). vm_compute; reflexivity.
+Qed.
+
+(** THE ONE OPEN CLASS.  No record is written when a key expires: commands that ran while the
+    key was alive and are redone after its deadline act on another dataset.  k is set with
+    300 ms to live, renamed to j, j is made persistent - all before the deadline.  A redo at
+    time 600 sets k, meets PEXPIREAT k 300 (past: the key is deleted), fails to rename, and
+    there is no j; the live server has j = v for good. *)
+Definition expiry_history : list tev :=
+  [(0, EConn 1);
+   (0, EFrame 1 (cmd [bs "SET"; bs "k"; bs "v"; bs "PX"; bs "300"]) None);
+   (100, EFrame 1 (cmd [bs "RENAME"; bs "k"; bs "j"]) None);
+   (200, EFrame 1 (cmd [bs "PERSIST"; bs "j"]) None)].
+Lemma expiry_unlogged_diverges :
+  get_entry (nth 0 (s_dbs (run_tevs expiry_history)) empty_db) (bs "j") = Some {| e_val := VStr (bs "v"); e_exp := None |} /\
+  get_entry (nth 0 (s_dbs (replay_o 600 (trecs (trace_of expiry_history) dbs0 None))) empty_db) (bs "j") = None /\
+  forallb (fun te => ev_ok (snd te)) expiry_history = true /\
+  fits_b (trace_of expiry_history) dbs0 = true /\
+  (* what fails is the condition on the deadlines: one of them has passed at the time of the redo *)
+  timed_run 600 (trace_of expiry_history) dbs0 = false /\
+  (* before the deadline the same redo is faithful *)
+  timed_run 250 (trace_of expiry_history) dbs0 = true.
+Proof. repeat (apply conj; [vm_compute; reflexivity|]). vm_compute; reflexivity. Qed.
+(** the same class without RENAME: a deadline that was extended while the key was alive *)
+Definition extended_history : list tev :=
+  [(0, EConn 1);
+   (0, EFrame 1 (cmd [bs "SET"; bs "q"; bs "z"; bs "EX"; bs "1"]) None);
+   (500, EFrame 1 (cmd [bs "PEXPIRE"; bs "q"; bs "500000"]) None)].
+Lemma expiry_extended_diverges :
+  get_entry (nth 0 (s_dbs (run_tevs extended_history)) empty_db) (bs "q") = Some {| e_val := VStr (bs "z"); e_exp := Some 500500 |} /\
+  get_entry (nth 0 (s_dbs (replay_o 2000 (trecs (trace_of extended_history) dbs0 None))) empty_db) (bs "q") = None /\
+  timed_run 2000 (trace_of extended_history) dbs0 = false.
+Proof. repeat (apply conj; [vm_compute; reflexivity|]). vm_compute; reflexivity. Qed.
